@@ -8,7 +8,7 @@ use crate::{for_both, hx, Ctx, Tier};
 use blsful::*;
 use serde_json::json;
 
-pub const RULE: &str = "n in {2,3,8} (quick) / every n in 2..=64 (thorough) x {ProofOfPossession, Basic} x 2 groups x messages from the length classes: n fresh keys sign one message; MultiSignature::from_signatures must equal the reference group sum (bytes) and MultiPublicKey::from_public_keys the key sum; (msig, mpk, msg) must verify (library and reference); omission of each signer, addition of one, replacement of each (every position for n<=16, 8 sampled above) and another message must fail, each also decided by the reference under the summed key; the accumulated key built from the signer list in another order must still verify. Accumulation refusal: all 3^n scheme assignments for n in {2,3}, MessageAugmentation at every position for n in {4,8}, sizes 0 and 1. Distinct by (suite, scheme, variant, mpk, msig, msg); non-trivial = pairing equation decides (points decode, none is the identity).";
+pub const RULE: &str = "n in {2,3,8,64} (quick) / every n in 2..=64 (thorough) x {ProofOfPossession, Basic} x 2 groups x messages from the length classes: n fresh keys sign one message; MultiSignature::from_signatures must equal the reference group sum (bytes) and MultiPublicKey::from_public_keys the key sum; (msig, mpk, msg) must verify (library and reference); omission of each signer, addition of one, replacement of each (every position for n<=16, 8 sampled above) and another message must fail, each also decided by the reference under the summed key; the accumulated key built from the signer list in another order must still verify. Accumulation refusal: all 3^n scheme assignments for n in {2,3}, MessageAugmentation at every position for n in {4,8}, sizes 0 and 1. Distinct by (suite, scheme, variant, mpk, msig, msg); non-trivial = pairing equation decides (points decode, none is the identity).";
 
 pub fn run(ctx: &mut Ctx) {
     for_both!(run_suite, ctx);
@@ -16,7 +16,7 @@ pub fn run(ctx: &mut Ctx) {
 
 fn sizes(t: Tier) -> Vec<usize> {
     match t {
-        Tier::Quick => vec![2, 3, 8],
+        Tier::Quick => vec![2, 3, 8, 64],
         Tier::Thorough => (2..=64).collect(),
     }
 }
